@@ -56,6 +56,16 @@ Theorem C15_exporter_files : forall (f0 : fs) pre ops ids n0 k n c, typed_pre pr
 Proof. exact exporter_named_files. Qed.
 Print Assumptions C15_exporter_files.
 
+(* ... and with compression: a crash at any instant of any history of a named gzip / xz exporter leaves under a final name the older file, or
+   one complete compressed stream (whatever codec satisfies codec_ok) that decompresses to one of the exporter's outputs *)
+Theorem C15_exporter_compressed : forall (cstate : Type) cinit crun cfinish decompress,
+  (forall chunks, decompress (cstream cstate crun cfinish cinit chunks) = Some (concat chunks)) ->
+  forall (f0 : fs) pre ops ids n0 k n c, let x := xrun (x_new pre) ops in
+  fs_run f0 (firstn k (named_trace n0 (czip cstate cinit crun cfinish cinit (run_wops (x_new pre) ops ids ++ destroy_wops x) true) true)) (Final n) = Some c ->
+  f0 (Final n) = Some c \/ exists p, (In p (x_closed x) \/ p = destroy x) /\ decompress c = Some p.
+Proof. intros cstate cinit crun cfinish decompress Hc f0 pre ops ids n0 k n c. apply (exporter_named_compressed_prefix cstate cinit crun cfinish decompress Hc). Qed.
+Print Assumptions C15_exporter_compressed.
+
 Example C15_nonvacuous :
   let f0 : fs := fun p => match p with Final 2 => Some [9; 9] | _ => None end in
   let tr := named_trace 1 [WWrite [1; 2]; WRotate 2; WWrite [3]] true in
